@@ -108,6 +108,106 @@ def prec_part(ctx):
             l["src"].split("=\n", 1)[1].strip(), l["status"], json.dumps(l["got"])), {"row": {"toks": l["toks"]}, "recorded": l, "kind": "prec"})
 
 
+LAYOUT_HEAD = """package main
+
+import frt
+
+package_info _ =
+  let Mark: string->()
+
+type P%(id)dL =
+  | P%(id)dQ
+  | P%(id)dW of int
+
+"""
+
+
+def layout_programs():
+    """nested `if` without else as the last expression of a multi-line `then` block, followed by an `else` / `elif` line dedented to
+    the OUTER if's column (the dangling-else layout), in every combination of: enclosing construct (function body / match arm / then
+    block of a third if / after a let), a statement before the inner if, inline or multi-line inner if, indentation of the else body,
+    else or elif, a statement after the whole if.  fc's translation is the prescription (property text); nothing here is compared
+    with spec/FoSem.tla because on this layout fc itself is the subject of the C01 known finding dangling-else-inner-if-only"""
+    out = []
+    pid = 0
+    for ctxk in ("fun", "arm", "if3", "let"):
+        for pre in (False, True):
+            for inline in (False, True):
+                for ebody in (1, 2, 4, 6):
+                    for kw in ("else", "elif"):
+                        for post in (False, True):
+                            pid += 1
+                            t = lambda k: '"p%dt%d"' % (pid, k)
+                            base = {"fun": 2, "arm": 4, "if3": 4, "let": 2}[ctxk]
+                            sp = " " * base
+                            L = []
+                            L.append("let p%df (a: bool) (b: bool) (c: bool) (l: P%dL) =" % (pid, pid))
+                            if ctxk == "arm":
+                                L += ["  match l with", "  | P%dQ ->" % pid, "    Mark %s" % t(1), "  | P%dW n ->" % pid]
+                            elif ctxk == "if3":
+                                L += ["  if c then"]
+                            elif ctxk == "let":
+                                L += ["  let k = 3", "  Mark %s" % t(1)]
+                            L.append(sp + "if a then")
+                            if pre:
+                                L.append(sp + "  Mark %s" % t(2))
+                            if inline:
+                                L.append(sp + "  if b then Mark %s" % t(3))
+                            else:
+                                L += [sp + "  if b then", sp + "    Mark %s" % t(3)]
+                            L.append(sp + ("else" if kw == "else" else "elif c then"))
+                            L.append(sp + " " * ebody + "Mark %s" % t(4))
+                            if post:
+                                L.append(sp + "Mark %s" % t(5))
+                            L.append("")
+                            L.append("let p%dmain () =" % pid)
+                            n = 10
+                            for a in ("true", "false"):
+                                for b in ("true", "false"):
+                                    for c in ("true", "false"):
+                                        for l in ("P%dQ" % pid, "(P%dW 3)" % pid):
+                                            n += 1
+                                            L.append("  Mark %s" % t(n))
+                                            L.append("  p%df %s %s %s %s" % (pid, a, b, c, l))
+                            L.append("  1")
+                            out.append(({"id": pid, "profile": "tinyfo-layout", "shape": [ctxk, pre, inline, ebody, kw, post]},
+                                        LAYOUT_HEAD % {"id": pid} + "\n".join(L) + "\n"))
+    return out
+
+
+def layout_part(ctx, only=None):
+    lp = layout_programs()
+    if only is not None:
+        lp = [x for x in lp if x[0]["shape"] == only]
+    progs = [x[0] for x in lp]
+    texts = [x[1] for x in lp]
+    ctx.build("tinyfo")
+    ctx.build("fc")
+    wt = ctx.mkdir("c17lt")
+    wf = ctx.mkdir("c17lf")
+    foi = reduced_foi(ctx, wt)
+    obs_t = run_one_side(ctx, wt, progs, texts, "tinyfo", foi=foi, tag="lt")
+    obs_f = run_one_side(ctx, wf, progs, texts, "fc", tag="lf")
+    both = 0
+    nv = 0
+    for p, txt in zip(progs, texts):
+        t, f = obs_t[p["id"]], obs_f[p["id"]]
+        ok = t["status"] in ("ok", "panic") and f["status"] in ("ok", "panic")
+        ctx.case(["layout", p["shape"]], nontrivial=ok)
+        if not ok:
+            continue              # one of the two rejects the layout: outside the subset, or no prescription
+        both += 1
+        if t["events"] != f["events"] or t["status"] != f["status"] or t["result"] != f["result"]:
+            nv += 1
+            if nv <= 5:
+                ctx.violation("dangling-else layout %s: the Go emitted by tinyfo and by fc behave differently\n%s" % (json.dumps(p["shape"]), txt),
+                              {"kind": "layout", "shape": p["shape"], "text": txt, "tinyfo": t, "fc": f})
+    ctx.extra["layout_programs"] = len(progs)
+    ctx.extra["layout_programs_both_accept"] = both
+    if only is None and both < 20:
+        raise core.Infra("the dangling-else layout family is vacuous: only %d programs accepted by both transpilers" % both)
+
+
 def run(ctx):
     ctx.rule = ("well-typed programs of the tinyfo subset from the seeded generator restricted to that profile (annotated functions, "
                 "+ - comparisons && || not, if / elif / else, if without else, non-generic records and unions with match (bind / ignore / "
@@ -116,7 +216,7 @@ def run(ctx):
                 "tinyfo AND by fc. distinct = distinct programs; non-trivial = the specified trace has >= 2 events. Outside the profile "
                 "(calibrated on the pinned tree): lambdas, * /, interpolation, string match, inner functions, generic probes, slice "
                 "literals as arguments, a let whose right-hand side starts on the next line.  Plus every chain of 1-3 operators of the subset "
-                "between names, written without parentheses, through tinyfo: grouping as in spec/FoPrec.tla (1,110 chains)")
+                "between names, written without parentheses, through tinyfo: grouping as in spec/FoPrec.tla (1,110 chains).  Plus the dangling-else layout family (256 hand-laid programs: an if without else ending the then block of another if, followed by a dedented else / elif), tinyfo against fc only, compared where both accept")
     n = 15000 if ctx.tier == "thorough" else 300
     rng = random.Random(ctx.seed * 104729 + 17)
     progs = [fogen.generate(rng, i + 1, profile="tinyfo", size=rng.randint(1, 4)) for i in range(n)]
@@ -127,6 +227,7 @@ def run(ctx):
         ctx.case(fogen.to_spec(p), nontrivial=len(o["events"]) >= 2,
                  sample={"program": texts[i][texts[i].find("let p%dmain" % p["id"]):][:300], "events": o["events"][:5], "status": o["status"]} if i % 97 == 5 else None)
     prec_part(ctx)
+    layout_part(ctx)
     ctx.traces = len(progs)
     ctx.extra["events_validated"] = sum(len(o["events"]) for o in obs_t.values())
     ctx.exhaustive = False
@@ -152,6 +253,9 @@ def run(ctx):
 def replay(ctx, rep):
     if rep.get("kind") == "prec":
         prec_part(ctx)
+        return
+    if rep.get("kind") == "layout":
+        layout_part(ctx, only=rep["shape"])
         return
     texts, obs_t, obs_f, bad = run_programs(ctx, [rep["program"]])
     pid = rep["program"]["id"]
